@@ -11,9 +11,9 @@ CONSTANTS
   Aliases = {""}
   Conds = {""}
   DirOpts <- NoDirs
-  ArgOpts <- ArgOptsSub
+  ArgOpts <- ArgOptsSub3
   VarTypes <- VarTypesStd
-  VarVals <- VarValsStd
+  VarVals <- VarValsSmall
   MaxOverlay = 0
   TRSets <- NoTR
   MaxFaults = 1
